@@ -18,6 +18,7 @@ def run(ctx):
                                         rule="implementation half of k_calllog: cone and at-most-once on series_computation",
                                         samples=[], failures=t.get("impl_failures", [])))
     ctx.oracle("o_cone_block_diagonalize", k_calllog.oracle_calllog_bd)
+    ctx.oracle("o_cone_second_quantised", k_calllog.oracle_calllog_2q)
     return ctx.finish(lambda f: None)
 
 
